@@ -1,7 +1,7 @@
 SPECIFICATION Spec
 CONSTANTS
-  N = 6
-  LONG = 0
+  N = 0
+  LONG = 45
   PASS_PRODUCT = FALSE
 INVARIANTS Increasing PassBound Cover OnlyPlain Emit
 PROPERTIES Terminates
